@@ -14,6 +14,16 @@ REPO = os.environ.get("CHIPFIRING_REPO", "/repo")
 sys.path.insert(0, REPO)
 warnings.filterwarnings("ignore")
 
+# optional line-coverage measurement of the library (tools/cover.py): which lines of /repo's
+# package this run's scenarios executed.  Off unless VERIF_COVERAGE names a directory.
+_COV = None
+if os.environ.get("VERIF_COVERAGE"):
+    import coverage as _coverage
+    os.makedirs(os.environ["VERIF_COVERAGE"], exist_ok=True)
+    _COV = _coverage.Coverage(data_file=os.path.join(os.environ["VERIF_COVERAGE"], "cov"), data_suffix=True,
+                              include=[os.path.join(os.path.realpath(REPO), "chipfiring", "*")])
+    _COV.start()
+
 import chipfiring  # noqa: E402
 from chipfiring.CFGraph import CFGraph, Vertex  # noqa: E402
 from chipfiring.CFDivisor import CFDivisor  # noqa: E402
@@ -1065,6 +1075,10 @@ def obj_digest(c, kind, obj):
         return "NONE"
     if not isinstance(obj, cls):
         return {"wrong_class": type(obj).__name__}
+    g0 = obj if kind == "graph" else obj.graph
+    got = sorted(v.name for v in g0.vertices)
+    if got != list(c.names):
+        return {"other_vertices": got}
     if kind == "graph":
         return {"graph": c.gdigest(obj)}
     if kind == "divisor":
@@ -1342,6 +1356,9 @@ def main():
                 res = {"observation_failed": type(e).__name__}
             fo.write(json.dumps(res, default=_jsondefault) + "\n")
             fo.flush()
+    if _COV is not None:
+        _COV.stop()
+        _COV.save()
 
 
 if __name__ == "__main__":
